@@ -2,8 +2,9 @@
 """Regenerates MANIFEST.json from props_registry.json + tools/manifest_text.json and validates it."""
 import json, os, sys
 V = os.path.dirname(os.path.dirname(os.path.abspath(__file__)))
-reg = json.load(open(os.path.join(V, 'props_registry.json')))
+reg = {f[:-5]: json.load(open(os.path.join(V, 'props_registry.d', f))) for f in sorted(os.listdir(os.path.join(V, 'props_registry.d'))) if f.endswith('.json')}
 txt = json.load(open(os.path.join(V, 'tools', 'manifest_text.json')))
+txt['checks'] = {f[:-5]: json.load(open(os.path.join(V, 'tools', 'manifest_text.d', f))) for f in sorted(os.listdir(os.path.join(V, 'tools', 'manifest_text.d'))) if f.endswith('.json')}
 props = [json.loads(l)['id'] for l in open(os.path.join(V, 'properties.jsonl'))]
 checks, na, engines = [], [], {}
 for pid in props:
@@ -34,6 +35,13 @@ m = {
     'notes': txt.get('notes', ''),
     'not_applicable': na,
 }
+# merge known-findings fragments (known_findings.d/*.json) into known_findings.json; 'fixed' entries are kept
+kf_path = os.path.join(V, 'known_findings.json')
+kf = json.load(open(kf_path)) if os.path.exists(kf_path) else {'findings': [], 'fixed': []}
+kd = os.path.join(V, 'known_findings.d')
+if os.path.isdir(kd):
+    kf['findings'] = [json.load(open(os.path.join(kd, f))) for f in sorted(os.listdir(kd)) if f.endswith('.json')]
+json.dump(kf, open(kf_path, 'w'), indent=1)
 json.dump(m, open(os.path.join(V, 'MANIFEST.json'), 'w'), indent=1)
 try:
     import jsonschema
